@@ -131,6 +131,10 @@ def build_cases(tier):
                 pp = pairs
             v = [{}, {"inline_functions": False}] if sn in ("callarg", "callres", "globalfn") else [{}]
             cases.append(mk("BINOP", et, sn, sh, pp, v))
+        # mixed forms: one operand literal, the other always loaded at run time (partial-constant folding must keep the value)
+        for et2 in ("{A} " + op + " stack[1]", "stack[0] " + op + " {B}"):
+            for sn in ("direct", "var1"):
+                cases.append(mk("BINOP-MIXED", et2, sn, SHAPES[sn], pairs if tier == "thorough" else [(a, b) for a, b in pairs if a in SMALL + ["10", "255"] and b in SMALL + ["10", "255"]]))
         # result used as range bound / list index: only pairs whose value is a small index
         for sn, sh in SMALL_SHAPES.items():
             pp = []
